@@ -126,7 +126,21 @@ def build(node, env=None, path='r'):
         return done(lazy_dataset.new(dict(zip(keys, vals)), immutable_warranty=node['mode']))
 
     if op in progs.NARY:
-        parts = [build(c, env, f'{path}.{i}') for i, c in enumerate(node['ins'])]
+        if node.get('share'):
+            # structurally equal inputs are ONE object (a.concatenate(b, a)): aliasing between the inputs of a stage
+            import json
+            memo, parts = {}, []
+            for i, c in enumerate(node['ins']):
+                k = json.dumps(c, sort_keys=True)
+                if k not in memo:
+                    memo[k] = (build(c, env, f'{path}.{i}'), f'{path}.{i}')
+                first = memo[k][1]
+                for q, d in list(env.nodes.items()):
+                    if q == first or q.startswith(first + '.'):
+                        env.nodes[f'{path}.{i}' + q[len(first):]] = d  # the duplicate's sub-paths are the same objects
+                parts.append(memo[k][0])
+        else:
+            parts = [build(c, env, f'{path}.{i}') for i, c in enumerate(node['ins'])]
         how = node.get('how', 'method')
         if op == 'concat':
             if how == 'method':
